@@ -5,7 +5,8 @@
 (* violations): Tree.nodes and Tree.walk (depth-first order, 0-based branch   *)
 (* paths), Tree equality (metadata is not compared), Graph equality (same top *)
 (* and the same set of triples, same length), alignment markers from and to   *)
-(* text.                                                                      *)
+(* text, the text of a decode error, model equality and Model.from_dict, and  *)
+(* the command's answers to argument errors.                                  *)
 (***************************************************************************)
 EXTENDS Relabel, IOUtils
 Traces == ndJsonDeserialize(IOEnv.TRACE_FILE)
@@ -33,7 +34,47 @@ GraphV == First(<<
 AlnV == First(<<
     <<"alignment-text-normal-form", T.str = "~" \o NormAln(T.text)>>,
     <<"alignment-prefix", T.prefix = (IF Ch(T.text, 1) \in Letters THEN (IF Len(T.text) >= 2 /\ Ch(T.text, 2) = "." THEN SubSeq(T.text, 1, 2) ELSE SubSeq(T.text, 1, 1)) ELSE "")>> >>)
+(* ---- the text of a decode error (docs/api/penman.exceptions.rst; Python's own layout for syntax errors) ---- *)
+\* T: e = [message, filename, lineno, offset, text] (each the written value or NULL), off (the offset as a number, 0 if none), str
+RECURSIVE NSpaces(_)
+NSpaces(n) == IF n = 0 THEN "" ELSE " " \o NSpaces(n - 1)
+RECURSIVE JoinBy(_, _)
+JoinBy(ps, sep) == IF ps = <<>> THEN "" ELSE IF Len(ps) = 1 THEN ps[1] ELSE ps[1] \o sep \o JoinBy(Tail(ps), sep)
+ErrStr(e, off) ==
+    LET loc == (IF e.filename # NULL THEN <<"File \"" \o e.filename \o "\"">> ELSE <<>>) \o (IF e.lineno # NULL THEN <<"line " \o e.lineno>> ELSE <<>>)
+        head == IF loc # <<>> THEN <<"", "  " \o JoinBy(loc, ", ")>> ELSE <<>>
+        body == IF e.text # NULL THEN head \o <<"    " \o e.text>> \o (IF e.offset # NULL THEN <<"    " \o NSpaces(off) \o "^">> ELSE <<>>)
+                ELSE IF head # <<>> THEN <<"", head[2] \o ", character " \o (IF e.offset = NULL THEN "None" ELSE e.offset)>>
+                ELSE <<>>
+        tail == IF e.message # NULL THEN <<"DecodeError: " \o e.message>> ELSE <<>>
+    IN JoinBy(body \o tail, SC.lf)
+ErrV == First(<<
+    <<"decode-error-text", T.str = ErrStr(T.e, T.off)>>,
+    \* an error raised by the parser points at the reported column of the reported line
+    <<"raised-error-carries-its-line", (T.raised /\ \E i \in 1..Len(T.input) : Ch(T.input, i) \notin Blanks) => (T.e.lineno # NULL /\ T.e.offset # NULL /\ T.e.text # NULL /\ T.e.filename = NULL)>> >>)
+
+(* ---- Model.from_dict and Model equality: two models are equal iff they were built from equal tables ---- *)
+\* T: same (the two descriptions are the same tables), eq (impl ==), eq_from_dict (Model(**d) == Model.from_dict(d)), neq_other (model != a non-model)
+ModelV == First(<<
+    <<"from-dict-is-the-constructor", T.eq_from_dict>>,
+    <<"model-equality-is-equality-of-tables", T.eq = T.same>>,
+    <<"a-model-never-equals-something-else", T.neq_other>> >>)
+
+(* ---- the command line: argument errors (docs/command.rst usage) ---- *)
+\* T: args, class in {"usage", "indent", "version", "run"} decided below from the arguments, exit, out (stdout), err_nonempty
+BadIndent(v) == ~(v \in {"no", "No", "NONE", "none", "false", "False"}) /\ ~(v \in {"-1", "0", "1", "2", "3", "10"})
+ArgClass == IF \E i \in DOMAIN T.args : T.args[i] \in {"-V", "--version"} THEN "version"
+            ELSE IF T.usage_error THEN "usage"
+            ELSE IF \E i \in DOMAIN T.args : StartsWith(T.args[i], "--indent=") /\ BadIndent(SubSeq(T.args[i], 10, Len(T.args[i]))) THEN "indent"
+            ELSE "run"
+ArgsV == First(<<
+    <<"version-exits-0-and-prints", ArgClass = "version" => (T.exit = 0 /\ StartsWith(T.out, "Penman v"))>>,
+    <<"usage-error-exits-2-without-output", ArgClass = "usage" => (T.exit = 2 /\ T.out = "" /\ T.err_nonempty)>>,
+    <<"bad-indent-exits-nonzero-without-output", ArgClass = "indent" => (T.exit # 0 /\ T.out = "" /\ T.err_nonempty)>>,
+    <<"valid-arguments-run", ArgClass = "run" => T.exit = 0>> >>)
+
 V == CASE T.kind = "api-tree" -> TreeV [] T.kind = "api-graph-eq" -> GraphV [] T.kind = "api-aln" -> AlnV
+       [] T.kind = "api-errstr" -> ErrV [] T.kind = "api-model-eq" -> ModelV [] T.kind = "api-args" -> ArgsV
 Init == tid \in 1..Len(Traces) /\ step = 0 /\ verdict = <<"pending", "">>
 Judge == step = 0 /\ step' = 1 /\ verdict' = V /\ UNCHANGED tid
 Spec == Init /\ [][Judge]_<<tid, step, verdict>>
